@@ -155,6 +155,9 @@ class FsmCtx(BaseCtx):
         # --- application-handler fault (profiles that set p_hfail): the n-th callback from now raises ENOSPC
         if cfg.get("p_hfail") and w.handler_fail_in is None and rng.chance(cfg["p_hfail"]):
             return ["hfail", rng.randrange(1, 4)]
+        # --- setsockopt(TCP_MD5SIG) fails once, on the next attempt (profiles that set p_sockfail)
+        if cfg.get("p_sockfail") and getattr(w, "sockopt_fail_next", None) is None and rng.chance(cfg["p_sockfail"]):
+            return ["sockfail", rng.pick([12, 92])]
         # --- prompt environment: pending connects answered, closes completed
         for k, c in enumerate(live):
             if c.state == "connecting" and rng.chance(cfg["p_prompt"]):
